@@ -19,7 +19,15 @@ ASSUMPTIONS = ["finiteness of returned floats is not a theorem (no verified roun
 
 
 def correspondence(ctx):
-    gen = torch.Generator().manual_seed(ctx.seed * 2003 + 2)
+    """thorough tier: several independent generator seeds (the quick tier runs one)"""
+    for rep in range(1 if ctx.quick() else 6):
+        _correspondence_once(ctx, rep)
+        if ctx.elapsed() > 1500:
+            break
+
+
+def _correspondence_once(ctx, rep=0):
+    gen = torch.Generator().manual_seed(ctx.seed * 2003 + 2 + 104729 * rep)
     E = R.entries('quick' if ctx.quick() else 'full')
     jobs = []
     for e in E:
